@@ -8,10 +8,10 @@ import (
 	"github.com/brimdata/super/internal/verif"
 )
 
-// vSame reports whether a and b have the same length and contents.  Cells
+// v01Same reports whether a and b have the same length and contents.  Cells
 // that are the same term on both sides are decided without the solver; a cell
 // that can differ splits the path (and fails the caller's assertion there).
-func vSame(a, b []byte) bool {
+func v01Same(a, b []byte) bool {
 	if len(a) != len(b) {
 		return false
 	}
@@ -23,10 +23,10 @@ func vSame(a, b []byte) bool {
 	return true
 }
 
-// vBody returns a body for length class k: nil, or a slice of the listed
+// v01Body returns a body for length class k: nil, or a slice of the listed
 // length.  Bodies up to 300 bytes are fully symbolic; longer ones are zero
 // except for a symbolic first and last byte.
-func vBody(name string, n int) []byte {
+func v01Body(name string, n int) []byte {
 	if n < 0 {
 		return nil
 	}
@@ -39,15 +39,15 @@ func vBody(name string, n int) []byte {
 	return b
 }
 
-var vO2Lens = []int{-1, 0, 1, 2, 126, 127, 128, 129, 300, 16382, 16383, 16384}
+var v01O2Lens = []int{-1, 0, 1, 2, 126, 127, 128, 129, 300, 16382, 16383, 16384}
 
 // verif:desc C01-O2 tag-length framing: for a body of any listed length (nil included) appended by zcode.Append after an arbitrary prefix and followed by a second value, Iter.Next returns exactly the body (nil stays nil, empty stays empty-non-nil), Iter.NextTagAndBody returns tag+body, DecodeTagLength gives the total encoded length, ReadTag gives -1 for null else the body length, and each leaves the iterator exactly at the following value, which decodes too.
 // verif:bounds body length in {nil,0,1,2,126,127,128,129,300,16382,16383,16384} (the 1->2 and 2->3 byte tag moves); contents symbolic for lengths <= 300, first and last byte symbolic above; dst prefix 0..2 symbolic bytes; trailing value nil or one symbolic byte
 // verif:outside other lengths; tags of 4 or more bytes (bodies >= 2 MiB)
 // verif:unwind 16
 func VerifH_C01_O2_taglength() {
-	n := vO2Lens[verif.Choose("lenclass", len(vO2Lens))]
-	body := vBody("body", n)
+	n := v01O2Lens[verif.Choose("lenclass", len(v01O2Lens))]
+	body := v01Body("body", n)
 	prefix := verif.Bytes("prefix", 2)
 	var tail []byte
 	if verif.Choose("tail", 2) == 1 {
@@ -55,7 +55,7 @@ func VerifH_C01_O2_taglength() {
 	}
 	dst := Bytes(append([]byte{}, prefix...))
 	buf := Append(dst, body)
-	verif.Assert(len(buf) >= len(prefix) && vSame(buf[:len(prefix)], prefix), "prefix-kept")
+	verif.Assert(len(buf) >= len(prefix) && v01Same(buf[:len(prefix)], prefix), "prefix-kept")
 	encLen := len(buf) - len(prefix)
 	buf = Append(buf, tail)
 	enc := buf[len(prefix):]
@@ -71,7 +71,7 @@ func VerifH_C01_O2_taglength() {
 		verif.Reach("null")
 	} else {
 		verif.Assert(got != nil, "next-nonnull-not-nil")
-		verif.Assert(vSame(got, body), "next-body")
+		verif.Assert(v01Same(got, body), "next-body")
 	}
 	verif.Assert(len(it) == len(enc)-encLen, "next-position")
 	got2 := it.Next()
@@ -85,19 +85,19 @@ func VerifH_C01_O2_taglength() {
 	// Iter.NextTagAndBody
 	it = enc.Iter()
 	tb := it.NextTagAndBody()
-	verif.Assert(vSame(tb, enc[:encLen]), "tagandbody")
+	verif.Assert(v01Same(tb, enc[:encLen]), "tagandbody")
 	verif.Assert(len(it) == len(enc)-encLen, "tagandbody-position")
 	// the tag+body slice is itself one value whose body is the body
 	b2 := tb.Body()
 	if body == nil {
 		verif.Assert(b2 == nil, "tagandbody-body-null")
 	} else {
-		verif.Assert(b2 != nil && vSame(b2, body), "tagandbody-body")
+		verif.Assert(b2 != nil && v01Same(b2, body), "tagandbody-body")
 	}
 
 	// Bytes.Body on the whole sequence
 	b3 := enc.Body()
-	verif.Assert((b3 == nil) == (body == nil) && vSame(b3, body), "bytes-body")
+	verif.Assert((b3 == nil) == (body == nil) && v01Same(b3, body), "bytes-body")
 
 	// ReadTag over an io.ByteReader
 	r := bytes.NewReader(enc)
@@ -119,18 +119,18 @@ func VerifH_C01_O2_taglength() {
 	verif.Reach("end")
 }
 
-type vChild struct {
+type v01Child struct {
 	body []byte // nil = null
-	sub  []vChild
+	sub  []v01Child
 	cont bool
 }
 
-// vBuild feeds a child list to the builder.
-func vBuild(b *Builder, cs []vChild) {
+// v01Build feeds a child list to the builder.
+func v01Build(b *Builder, cs []v01Child) {
 	for _, c := range cs {
 		if c.cont {
 			b.BeginContainer()
-			vBuild(b, c.sub)
+			v01Build(b, c.sub)
 			b.EndContainer()
 		} else {
 			b.Append(c.body)
@@ -138,8 +138,8 @@ func vBuild(b *Builder, cs []vChild) {
 	}
 }
 
-// vCheck iterates the encoded sequence and compares with the child list.
-func vCheck(enc Bytes, cs []vChild, id string) {
+// v01Check iterates the encoded sequence and compares with the child list.
+func v01Check(enc Bytes, cs []v01Child, id string) {
 	it := enc.Iter()
 	for _, c := range cs {
 		verif.Assert(!it.Done(), id+"-short")
@@ -149,11 +149,11 @@ func vCheck(enc Bytes, cs []vChild, id string) {
 		got := it.Next()
 		if c.cont {
 			verif.Assert(got != nil, id+"-container-not-null")
-			vCheck(got, c.sub, id+"/sub")
+			v01Check(got, c.sub, id+"/sub")
 		} else if c.body == nil {
 			verif.Assert(got == nil, id+"-null")
 		} else {
-			verif.Assert(got != nil && vSame(got, c.body), id+"-body")
+			verif.Assert(got != nil && v01Same(got, c.body), id+"-body")
 		}
 	}
 	verif.Assert(it.Done(), id+"-done")
@@ -165,27 +165,27 @@ func vCheck(enc Bytes, cs []vChild, id string) {
 // verif:unwind 16
 func VerifH_C01_O3_builder() {
 	k := verif.Choose("k", 3) + 1
-	var cs []vChild
+	var cs []v01Child
 	smalls := []int{-1, 0, 3}
 	for i := 0; i < k-1; i++ {
-		cs = append(cs, vChild{body: vBody("small", smalls[verif.Choose("smalllen", 3)])})
+		cs = append(cs, v01Child{body: v01Body("small", smalls[verif.Choose("smalllen", 3)])})
 	}
 	last := 110 + verif.Choose("lastlen", 26)
-	cs = append(cs, vChild{body: verif.BytesN("last", last)})
-	var top []vChild
+	cs = append(cs, v01Child{body: verif.BytesN("last", last)})
+	var top []v01Child
 	switch verif.Choose("nest", 3) {
 	case 0:
-		top = []vChild{{cont: true, sub: cs}}
+		top = []v01Child{{cont: true, sub: cs}}
 	case 1:
-		top = []vChild{{cont: true, sub: []vChild{
+		top = []v01Child{{cont: true, sub: []v01Child{
 			{body: []byte{verif.Byte("sib0")}},
 			{cont: true, sub: cs},
 			{body: nil},
 			{body: []byte{verif.Byte("sib1")}},
 		}}}
 	case 2:
-		inner := vChild{cont: true, sub: []vChild{{body: []byte{verif.Byte("in0"), verif.Byte("in1")}}, {body: []byte{}}}}
-		top = []vChild{{cont: true, sub: append([]vChild{inner}, cs...)}}
+		inner := v01Child{cont: true, sub: []v01Child{{body: []byte{verif.Byte("in0"), verif.Byte("in1")}}, {body: []byte{}}}}
+		top = []v01Child{{cont: true, sub: append([]v01Child{inner}, cs...)}}
 	}
 	b := NewBuilder()
 	if verif.Choose("reuse", 2) == 1 {
@@ -198,9 +198,9 @@ func VerifH_C01_O3_builder() {
 	if verif.Choose("grow", 2) == 1 {
 		b.Grow(1024)
 	}
-	vBuild(b, top)
+	v01Build(b, top)
 	enc := b.Bytes()
-	vCheck(enc, top, "top")
+	v01Check(enc, top, "top")
 	body := enc.Body()
 	if len(body) >= 127 {
 		verif.Reach("tag2")
